@@ -82,10 +82,16 @@ impl Divert {
     pub fn get_target_pointer(self: &Rc<Self>) -> Pointer {
         let target_pointer_null = self.target_pointer.borrow().is_null();
         if target_pointer_null {
-            let target_obj =
-                Object::resolve_path(self.clone(), self.target_path.borrow().as_ref().unwrap())
-                    .obj
-                    .clone();
+            let target =
+                Object::resolve_path(self.clone(), self.target_path.borrow().as_ref().unwrap());
+
+            // The target does not exist: leave the pointer null (the caller reports the failed divert)
+            // instead of approximating it by the nearest container that does exist
+            if target.approximate {
+                return pointer::NULL.clone();
+            }
+
+            let target_obj = target.obj.clone();
 
             if self
                 .target_path
